@@ -612,4 +612,186 @@ theorem NInv.removeOne {W : List Wire} {g : MG} {body : Wire → List Nd} (h : N
     obtain ⟨q, hq, hq1⟩ := List.mem_map.1 hn
     exact List.mem_map.2 ⟨q, (List.mem_filter.1 hq).1, hq1⟩
 
+/-! ## one wrapper node: insert the unwrapped operations before it, then remove it -/
+
+/-- the loop of `unwrap_nodes` for one wrapper: insert `us` (application order) on the in-edge of `p` -/
+def insertAll (p : Nd) (wq : Wire) (us : List Op) (g : MG) : MG :=
+  us.foldl (fun g o => match g.inEdge p wq with
+    | some e => g.insertAt o e
+    | none => g) g
+
+theorem NInv.insertMany {W : List Wire} (p : Nd) (wq : Wire) (hwq : wq ∈ W) (b1 b2 : List Nd) :
+    ∀ (us : List Op) (g : MG) (body : Wire → List Nd) (ins0 : List Nd), NInv W g body →
+      body wq = b1 ++ ins0 ++ p :: b2 → (∀ o ∈ us, opWires o = [wq]) →
+      ∃ body' ins, NInv W (insertAll p wq us g) body' ∧ body' wq = b1 ++ ins0 ++ ins ++ p :: b2 ∧
+        (∀ w, w ≠ wq → body' w = body w) ∧ ins.filterMap (gateAt (insertAll p wq us g)) = us ∧
+        (∀ m, m ∈ g.nodes.map (·.1) → (insertAll p wq us g).opOf m = g.opOf m) ∧
+        (∀ m, m ∈ g.nodes.map (·.1) → m ∈ (insertAll p wq us g).nodes.map (·.1)) ∧
+        (∀ m o', (insertAll p wq us g).opOf m = some (.gate o') → g.opOf m = some (.gate o') ∨ o' ∈ us) := by
+  intro us
+  induction us with
+  | nil =>
+    intro g body ins0 h hb _
+    exact ⟨body, [], h, by simpa using hb, fun _ _ => rfl, rfl, fun _ _ => rfl, fun _ hm => hm, fun _ _ ho => Or.inl ho⟩
+  | cons o us' ih =>
+    intro g body ins0 h hb hus
+    -- the in-edge of `p`
+    have hpath : pathOf body wq = (Nd.inp wq :: (b1 ++ ins0)) ++ p :: (b2 ++ [Nd.out wq]) := by
+      unfold pathOf; rw [hb]; simp
+    obtain ⟨l1, a, hl1⟩ : ∃ l1 a, Nd.inp wq :: (b1 ++ ins0) = l1 ++ [a] := by
+      rcases List.eq_nil_or_concat (Nd.inp wq :: (b1 ++ ins0)) with h' | ⟨l1, a, h'⟩
+      · cases h'
+      · exact ⟨l1, a, by rw [h', List.concat_eq_append]⟩
+    have hadj : Adj (pathOf body wq) a p := ⟨l1, b2 ++ [Nd.out wq], by rw [hpath, hl1]; simp⟩
+    obtain ⟨e0, he0, _, hd0, hk0⟩ := h.rep.edge_complete wq hwq a p hadj
+    obtain ⟨e, hfind⟩ : ∃ e, g.inEdge p wq = some e := by
+      have := inEdge_isSome_of_mem g e0 he0
+      rwa [hd0, hk0] at this
+    have hstep : insertAll p wq (o :: us') g = insertAll p wq us' (g.insertAt o e) := by
+      unfold insertAll
+      rw [List.foldl_cons, hfind]
+    rw [hstep]
+    obtain ⟨h', hold, hnew, hnodes⟩ := h.insertBefore p wq hwq (b1 ++ ins0) b2 hb o (hus o (by simp)) e hfind
+    have hb' : upd body wq (b1 ++ ins0 ++ Nd.op (g.nodeId + 1) :: p :: b2) wq = b1 ++ (ins0 ++ [Nd.op (g.nodeId + 1)]) ++ p :: b2 := by
+      rw [upd_same]; simp
+    obtain ⟨body'', ins, h'', hb'', hother, hgates, hold2, hmem2, hwr⟩ := ih (g.insertAt o e) _ (ins0 ++ [Nd.op (g.nodeId + 1)]) h' hb'
+      (fun o' ho' => hus o' (List.mem_cons_of_mem _ ho'))
+    have hxmem : Nd.op (g.nodeId + 1) ∈ (g.insertAt o e).nodes.map (·.1) := by rw [hnodes]; simp
+    have hsub : ∀ m, m ∈ g.nodes.map (·.1) → m ∈ (g.insertAt o e).nodes.map (·.1) := by
+      intro m hm; rw [hnodes, List.map_append]; exact List.mem_append_left _ hm
+    refine ⟨body'', Nd.op (g.nodeId + 1) :: ins, h'', ?_, ?_, ?_, ?_, ?_, ?_⟩
+    · rw [hb'']; simp
+    · intro w hw; rw [hother w hw, upd_other body wq w _ hw]
+    · rw [List.filterMap_cons]
+      have : gateAt (insertAll p wq us' (g.insertAt o e)) (Nd.op (g.nodeId + 1)) = some o := by
+        unfold gateAt; rw [hold2 _ hxmem, hnew]
+      rw [this, hgates]
+    · intro m hm
+      rw [hold2 m (hsub m hm), hold m hm]
+    · intro m hm; exact hmem2 m (hsub m hm)
+    · intro m o' ho'
+      rcases hwr m o' ho' with h1 | h1
+      · by_cases hm : m ∈ g.nodes.map (·.1)
+        · left; rw [← hold m hm]; exact h1
+        · right
+          have hm' := opOf_some_mem _ _ _ h1
+          rw [hnodes, List.map_append, List.mem_append] at hm'
+          rcases hm' with hm' | hm'
+          · exact absurd hm' hm
+          · simp only [List.map_cons, List.map_nil, List.mem_singleton] at hm'
+            rw [hm', hnew] at h1
+            injection h1 with h1
+            injection h1 with h1
+            rw [← h1]; simp
+      · right; exact List.mem_cons_of_mem _ h1
+
+theorem unwrap_wires (gs : List G1) (q : QReg) : ∀ o ∈ Op.unwrap (.wrap gs q), opWires o = [Wire.ofQ q] := by
+  intro o ho
+  simp only [Op.unwrap, List.mem_map] at ho
+  obtain ⟨g1, _, rfl⟩ := ho
+  rfl
+
+theorem unwrap_unwrap (gs : List G1) (q : QReg) :
+    (Op.unwrap (.wrap gs q)).flatMap Op.unwrap = Op.unwrap (.wrap gs q) := by
+  simp only [Op.unwrap]
+  induction gs.reverse with
+  | nil => rfl
+  | cons a l ih => simp only [List.map_cons, List.flatMap_cons, Op.unwrap, ih]; rfl
+
+theorem filterMap_gateAt_congr (g g' : MG) (l : List Nd) (h : ∀ n ∈ l, g'.opOf n = g.opOf n) :
+    l.filterMap (gateAt g') = l.filterMap (gateAt g) := by
+  apply List.filterMap_congr
+  intro n hn
+  exact gateAt_congr g g' n (h n hn)
+
+/-- **one wrapper node processed**: the register-path invariant is kept and, on every register, the unwrapped operation
+    sequence is unchanged -/
+theorem NInv.unwrapOne {W : List Wire} {g : MG} {body : Wire → List Nd} (h : NInv W g body) (p : Nd) (gs : List G1) (q : QReg)
+    (hp : g.opOf p = some (.gate (.wrap gs q))) :
+    ∃ body', NInv W ((insertAll p (Wire.ofQ q) (Op.unwrap (.wrap gs q)) g).removeOp p) body' ∧
+      (∀ w ∈ W, (wireOps ((insertAll p (Wire.ofQ q) (Op.unwrap (.wrap gs q)) g).removeOp p) body' w).flatMap Op.unwrap
+        = (wireOps g body w).flatMap Op.unwrap) ∧
+      (∀ m, m ≠ p → m ∈ g.nodes.map (·.1) →
+        ((insertAll p (Wire.ofQ q) (Op.unwrap (.wrap gs q)) g).removeOp p).opOf m = g.opOf m) ∧
+      (∀ m o', ((insertAll p (Wire.ofQ q) (Op.unwrap (.wrap gs q)) g).removeOp p).opOf m = some (.gate o') →
+        (m ≠ p ∧ g.opOf m = some (.gate o')) ∨ o' ∈ Op.unwrap (.wrap gs q)) := by
+  have hwires : opWires (.wrap gs q) = [Wire.ofQ q] := rfl
+  obtain ⟨hwq, hpb⟩ := h.onPath p _ hp (Wire.ofQ q) (by rw [hwires]; simp)
+  obtain ⟨b1, b2, hb⟩ := List.append_of_mem hpb
+  obtain ⟨body1, ins, h1, hb1, hother1, hgates1, hold1, hmem1, hwr1⟩ :=
+    NInv.insertMany p (Wire.ofQ q) hwq b1 b2 (Op.unwrap (.wrap gs q)) g body [] h (by simpa using hb) (unwrap_wires gs q)
+  have hp1 : (insertAll p (Wire.ofQ q) (Op.unwrap (.wrap gs q)) g).opOf p = some (.gate (.wrap gs q)) := by
+    rw [hold1 p (opOf_some_mem g p _ hp)]; exact hp
+  obtain ⟨c1, c2, hc, h2, hop2⟩ := h1.removeOne p _ hp1 (Wire.ofQ q) hwires
+  -- the two decompositions of the path body agree
+  have hbody1 : body1 (Wire.ofQ q) = (b1 ++ ins) ++ p :: b2 := by rw [hb1]; simp
+  have hnd1 : (body1 (Wire.ofQ q)).Nodup := by
+    have := h1.rep.pathNodup _ hwq
+    unfold pathOf at this
+    exact (List.nodup_append.1 (List.nodup_cons.1 this).2).1
+  obtain ⟨ec1, ec2⟩ := nodup_split_unique _ hnd1 p _ _ _ _ hc hbody1
+  have ec2' := ec2.symm
+  subst ec1
+  subst ec2'
+  have hpnot : p ∉ b1 ++ ins ∧ p ∉ b2 := by
+    rw [hbody1] at hnd1
+    have hperm : ((b1 ++ ins) ++ p :: b2).Perm (p :: ((b1 ++ ins) ++ b2)) := List.perm_middle
+    have := (List.nodup_cons.1 (hperm.nodup_iff.1 hnd1)).1
+    simp only [List.mem_append, not_or] at this ⊢
+    tauto
+  refine ⟨_, h2, ?_, ?_, ?_⟩
+  · intro w hw
+    by_cases hk : w = Wire.ofQ q
+    · subst hk
+      unfold wireOps
+      rw [upd_same, hb]
+      simp only [List.filterMap_append, List.filterMap_cons, List.flatMap_append]
+      have hgp : gateAt g p = some (.wrap gs q) := by unfold gateAt; rw [hp]
+      rw [hgp]
+      -- old nodes keep their operation
+      have hkeep : ∀ (l : List Nd), (∀ n ∈ l, n ∈ body (Wire.ofQ q)) → p ∉ l →
+          l.filterMap (gateAt ((insertAll p (Wire.ofQ q) (Op.unwrap (.wrap gs q)) g).removeOp p)) = l.filterMap (gateAt g) := by
+        intro l hl hpl
+        apply filterMap_gateAt_congr
+        intro n hn
+        have hne : n ≠ p := fun h' => hpl (h' ▸ hn)
+        rw [hop2 n, if_neg hne]
+        obtain ⟨_, _, _, hop, _⟩ := h.rep.bodyOp _ hwq n (hl n hn)
+        exact hold1 n (opOf_some_mem g n _ hop)
+      have hins : ins.filterMap (gateAt ((insertAll p (Wire.ofQ q) (Op.unwrap (.wrap gs q)) g).removeOp p))
+          = Op.unwrap (.wrap gs q) := by
+        refine Eq.trans (filterMap_gateAt_congr _ _ ins ?_) hgates1
+        intro n hn
+        have hne : n ≠ p := fun h' => hpnot.1 (h' ▸ List.mem_append_right _ hn)
+        rw [hop2 n, if_neg hne]
+      rw [hkeep b1 (fun n hn => by rw [hb]; simp [hn]) (fun h' => hpnot.1 (List.mem_append_left _ h')),
+        hkeep b2 (fun n hn => by rw [hb]; simp [hn]) hpnot.2, hins, unwrap_unwrap]
+      simp only [List.flatMap_cons, List.append_assoc]
+    · unfold wireOps
+      rw [upd_other _ _ w _ hk, hother1 w hk]
+      congr 1
+      apply filterMap_gateAt_congr
+      intro n hn
+      obtain ⟨_, o', _, hop, hwo⟩ := h.rep.bodyOp w hw n hn
+      have hne : n ≠ p := by
+        rintro rfl
+        rw [hp] at hop
+        injection hop with hop
+        injection hop with hop
+        rw [← hop, hwires, List.mem_singleton] at hwo
+        exact hk hwo
+      rw [hop2 n, if_neg hne]
+      exact hold1 n (opOf_some_mem g n _ hop)
+  · intro m hm hmem
+    rw [hop2 m, if_neg hm]
+    exact hold1 m hmem
+  · intro m o' ho'
+    rw [hop2 m] at ho'
+    split at ho'
+    · cases ho'
+    · rename_i hne
+      rcases hwr1 m o' ho' with h' | h'
+      · exact Or.inl ⟨hne, h'⟩
+      · exact Or.inr h'
+
 end Graphiq.Compare
